@@ -88,6 +88,7 @@ EXPECTED_NONVERBATIM = {
     ("TemperingContainer.new", "graph_ham_eq_b"),
     ("TemperingContainer.new", "graphs"),
     ("TemperingContainer.new", "total_swaps"),
+    ("pool reset", "BondContainer::clear"),
 }
 
 # cache maintenance of the tempering container as the unchanged tree has it (regenerated statements); a different
